@@ -71,3 +71,22 @@ def bounded_obligations(report, prop, names, res, functions=()):
     b['scope'] = res['scope']
     b['exhaustive'] = False
     return res
+
+
+def run_script(module, args, timeout=3000):
+    """Run a harness script (python -m <module> ... --out <tmp>) under the test-suite interpreter -> result dict."""
+    fd, out = tempfile.mkstemp(prefix='pv_', suffix='.json')
+    os.close(fd)
+    env = dict(os.environ)
+    env['PYTHONPATH'] = VERIF + os.pathsep + REPO
+    env['PYTHONDONTWRITEBYTECODE'] = '1'
+    try:
+        p = subprocess.run([VENV_PY, '-m', module] + list(args) + ['--out', out, '--repo', REPO], cwd=VERIF, env=env,
+                           capture_output=True, text=True, timeout=timeout)
+        if p.returncode != 0:
+            raise RuntimeError('%s failed (rc %d): %s' % (module, p.returncode, p.stderr[-2000:]))
+        with open(out) as f:
+            return json.load(f)
+    finally:
+        if os.path.exists(out):
+            os.remove(out)
